@@ -31,8 +31,8 @@ m("c01_cased_ident_kept", ["C01"], VP, "        if attrs.is_empty() {", "       
   "a variant with only to_string also accepts its cased identifier")
 m("c01_tryfrom_trims", ["C01"], FS, "                ::core::str::FromStr::from_str(s)\n", "                ::core::str::FromStr::from_str(s.trim())\n",
   "TryFrom<&str> trims its input before delegating (TryFrom and FromStr disagree)")
-m("c01_default_with_ignored_named", ["C01"], FS, "                    if let Some(default_with) = meta.default_with {", "                    if let (Some(default_with), true) = (meta.default_with, fields.named.len() != 2) {",
-  "field-level default_with is ignored on two-field variants")
+m("c01_default_with_ignored_named", ["C01"], FS, "                    if let Some(default_with) = meta.default_with {", "                    if let (Some(default_with), true) = (meta.default_with, fields.named.len() != 3) {",
+  "field-level default_with is ignored on three-field variants")
 # ---- C02 / C14 / G4
 m("c02_serializations_uncased", ["C02", "C14", "C07"], MS, "                variant_properties.get_serializations(type_properties.case_style);", "                variant_properties.get_serializations(None);",
   "get_serializations ignores serialize_all")
@@ -127,7 +127,7 @@ m("c19_std_option", ["C19"], IT, "    arms.push(quote! { _ => ::core::option::Op
   "one template spells ::std::option::Option")
 m("c19_hard_coded_strum", ["C19"], EC, "        impl #impl_generics #strum_module_path::EnumCount for #name #ty_generics #where_clause {", "        impl #impl_generics ::strum::EnumCount for #name #ty_generics #where_clause {",
   "EnumCount hard-codes ::strum instead of the configured crate path")
-m("c19_unrooted_core", ["C19"], IT, "            fn fmt(&self, f: &mut ::core::fmt::Formatter<'_>) -> ::core::fmt::Result {", "            fn fmt(&self, f: &mut ::core::fmt::Formatter<'_>) -> core::fmt::Result {",
+m("c19_unrooted_core", ["C19"], TB, "        impl<T> ::core::ops::IndexMut<#name> for #table_name<T> {", "        impl<T> core::ops::IndexMut<#name> for #table_name<T> {",
   "a template spells core:: without the leading `::` (captured by a local `mod core`)")
 # ---- C20
 m("c20_unwrap", ["C20"], EC, "            if v.get_variant_properties()?.disabled.is_none() {", "            if v.get_variant_properties().unwrap().disabled.is_none() {",
